@@ -715,6 +715,9 @@ evrpc_schedule_request(struct evhttp_connection *connection,
 	return (0);
 
 error:
+	/* the http request was never handed to a connection */
+	if (req != NULL)
+		evhttp_request_free(req);
 	memset(&status, 0, sizeof(status));
 	status.error = EVRPC_STATUS_ERR_UNSTARTED;
 	(*ctx->cb)(&status, ctx->request, ctx->reply, ctx->cb_arg);
@@ -754,12 +757,21 @@ evrpc_schedule_request_closure(void *arg, enum EVRPC_HOOK_RESULT hook_res)
 	res = evhttp_make_request(connection, req, EVHTTP_REQ_POST, uri);
 	mm_free(uri);
 
-	if (res == -1)
+	if (res == -1) {
+		/* evhttp_make_request() has freed the request */
+		req = NULL;
+		if (pool->timeout > 0)
+			evtimer_del(&ctx->ev_timeout);
 		goto error;
+	}
 
 	return;
 
 error:
+	/* terminated by a hook after a pause, or never started: the http
+	 * request is still ours */
+	if (req != NULL)
+		evhttp_request_free(req);
 	memset(&status, 0, sizeof(status));
 	status.error = EVRPC_STATUS_ERR_UNSTARTED;
 	(*ctx->cb)(&status, ctx->request, ctx->reply, ctx->cb_arg);
